@@ -42,7 +42,8 @@ def gen_expr(R):
     if r < 0.04: s = p + '[5-1]'
     elif r < 0.06: s = p + '[1-'
     elif r < 0.08: s = p + '1]'
-    elif r < 0.09: s = p + '[1-100000]'
+    elif r < 0.08: s = p + '[1-100000]'
+    elif r < 0.09: s = p + R.choice(['[0-18446744073709551615]', '[1-18446744073709551616]', '[7-18446744073709551615]'])     # hi - lo + 1 wraps in unsigned long (F30)
     elif r < 0.10: s = p + '[a-b]'
     if R.random() < 0.3: s += ',' + gen_name(R, [])
     if R.random() < 0.15: s = gen_name(R, []) + ',' + s
@@ -88,9 +89,20 @@ def gen_ops(seed, n, overlap=0.02):
     return ops
 
 
-def run_side(cmd, ops, env=None):
-    r = subprocess.run(cmd, input='\n'.join(ops) + '\n', capture_output=True, text=True, env=env)
-    return r.stdout.split('\n')[:-1] if r.stdout.endswith('\n') else r.stdout.split('\n'), r
+class _Hung:
+    """result of a side that did not finish: the library spins on some operation"""
+    def __init__(self, out, err): self.returncode = -9; self.stdout = out; self.stderr = (err or '') + '\nHUNG: no answer within the time limit; the process was killed\n'
+
+
+def run_side(cmd, ops, env=None, limit=120):
+    try:
+        r = subprocess.run(cmd, input='\n'.join(ops) + '\n', capture_output=True, text=True, env=env, timeout=limit)
+    except subprocess.TimeoutExpired as e:
+        dec = lambda b: b.decode('latin1') if isinstance(b, bytes) else (b or '')
+        r = _Hung(dec(e.stdout), dec(e.stderr))
+    out = r.stdout.split('\n')
+    # the last element is the text after the final newline: empty for a complete answer, a torn line otherwise
+    return out[:-1], r
 
 
 def numeric_suffix(n):
@@ -180,7 +192,7 @@ def one(args):
             V.append(dict(sig='sort overlap mixed-width', at=i, op=ops[i] if i < len(ops) else '', detail=rc.stderr[-600:], history=[o for o in ops[max(0, i - 12):i] if o != 'E']))
         else:
             diffs.append(dict(at=i, kind='death-not-predicted', stderr=rc.stderr[-1200:], op=ops[i] if i < len(ops) else ''))
-            V.append(dict(sig='C14 hostlist library died', at=i, detail=rc.stderr[-1200:]))
+            V.append(dict(sig='C14 hostlist library hangs' if 'HUNG' in rc.stderr else 'C14 hostlist library died', at=i, op=ops[i] if i < len(ops) else '', detail=rc.stderr[-1200:]))
     check_props(ops[:len(c_out)], c_out, V, st)
     for v in V: v['replay'] = dict(layer='hostlist', seed=seed, n=n, ops=ops[:v.get('at', 0) + 2] if v.get('at', 0) < 400 else None)
     for d in diffs: d['replay'] = dict(layer='hostlist', seed=seed, n=n)
